@@ -63,6 +63,10 @@ func (t *TransactionManager) Confirm(id string) error {
 	if t.transaction == nil {
 		return fmt.Errorf("no ongoing transaction")
 	}
+	// a confirm for another transaction must not touch the ongoing one (its rollback timer keeps running)
+	if _, err := t.GetTransaction(id); err != nil {
+		return err
+	}
 	err := t.transaction.Confirm()
 	if err != nil {
 		return err
@@ -75,6 +79,10 @@ func (t *TransactionManager) Cancel(ctx context.Context, id string) error {
 	defer t.tmMutex.Unlock()
 	if t.transaction == nil {
 		return fmt.Errorf("no ongoing transaction")
+	}
+	// a cancel for another transaction must not roll back the ongoing one
+	if _, err := t.GetTransaction(id); err != nil {
+		return err
 	}
 	rollbacktransAction := t.transaction.GetRollbackTransaction()
 
